@@ -236,6 +236,24 @@ pub fn run_tapes<F>(
 where
     F: Fn(&[u8], &Rec) -> Verdict + Sync,
 {
+    run_tapes_opts(ctx, name, cases, max_len, 2000, stats, f)
+}
+
+/// As `run_tapes` with an explicit bound on shrink iterations (expensive cases use a small one).
+/// Once a shard has a shrunk failure the other shards stop generating new cases.
+pub fn run_tapes_opts<F>(
+    ctx: &Ctx,
+    name: &str,
+    cases: usize,
+    max_len: usize,
+    max_shrink_iters: u32,
+    stats: &Stats,
+    f: F,
+) -> Vec<Failure>
+where
+    F: Fn(&[u8], &Rec) -> Verdict + Sync,
+{
+    let stop = AtomicBool::new(false);
     let shards = ctx.threads.max(1);
     let per = (cases + shards - 1) / shards;
     let failures: Mutex<Vec<(usize, Failure)>> = Mutex::new(Vec::new());
@@ -243,6 +261,7 @@ where
         for shard in 0..shards {
             let f = &f;
             let failures = &failures;
+            let stop = &stop;
             let name = name.to_string();
             let seed = ctx.seed;
             std::thread::Builder::new()
@@ -251,7 +270,7 @@ where
                     let config = Config {
                         cases: per as u32,
                         failure_persistence: None,
-                        max_shrink_iters: 4000,
+                        max_shrink_iters,
                         max_shrink_time: 0,
                         max_global_rejects: 1 << 30,
                         ..Config::default()
@@ -262,6 +281,10 @@ where
                     let failed = std::cell::Cell::new(false);
                     let strategy = vec(any::<u8>(), 0..max_len);
                     let result = runner.run(&strategy, |tape| {
+                        if !failed.get() && stop.load(Ordering::Relaxed) {
+                            // another shard already has a failure: do not start new cases
+                            return Ok(());
+                        }
                         let rec = Rec::new(stats, !failed.get());
                         rec.eval(1);
                         match f(&tape, &rec) {
@@ -277,6 +300,7 @@ where
                     match result {
                         Ok(()) => {}
                         Err(TestError::Fail(reason, tape)) => {
+                            stop.store(true, Ordering::Relaxed);
                             // Re-run the minimal tape to get its own Bad record.
                             let rec = Rec::new(stats, false);
                             let bad = match f(&tape, &rec) {
